@@ -159,15 +159,16 @@ PROPS["C09"] = {
 }
 
 PROPS["C20"] = {
-    "units": ["render", "task"],
-    "probes": {"render": ["progress_fancy::task_message", "progress_fancy::truncate", "progress_fancy::progress_bar", "progress::build_message", "terminal::unix::get_cols", "progress_fancy::FancyState::print_progress"], "task": ["task::find_last_line"]},
+    "units": ["render", "task", "sched"],
+    "probes": {"render": ["progress_fancy::task_message", "progress_fancy::truncate", "progress_fancy::progress_bar", "progress::build_message", "terminal::unix::get_cols", "progress_fancy::FancyState::print_progress", "progress_dumb::DumbConsoleProgress::new"], "task": ["task::find_last_line"], "sched": ["work::Work::run"]},
     "level": "proof",
     "assumptions": [
         "TRUSTED byte model of str/String (R9 wrappers, render.pre.rs): len, is_char_boundary (defined on the utf-8 bytes exactly as core does), &s[..n] and String::truncate panic unless n is a boundary, push/push_str/repeat append the encodings, an ASCII char encodes to one byte; utf-8 encoding itself is uninterpreted",
         "format!(\" ({}s)\", seconds) is an opaque String of arbitrary length (R4): the width bound therefore holds for every elapsed time, not only up to 10^6 s",
         "progress_bar's precondition total * (bar_size + 1) <= usize::MAX holds at its only call site (bar_size 40, counts bounded by the number of builds < 2^32 by C19's count_inv) and is discharged there: FancyState::print_progress is under contract (never panics, terminates, calls task_message/truncate/progress_bar within their preconditions, at most 8 task lines) given counts < 2^32 each (C19) -- over trusted wrappers for the clock, VecDeque::iter().take(), stdout (ASSUMED: write_all succeeds; the real code unwraps it) and a byte-string literal; R4 drops the text write! produces, so the width of the *assembled* lines is decided only through the helpers' postconditions; the mutex, the debounce thread and the other FancyState methods (task_output's find().unwrap()) are not under contract (terminal::unix::get_cols IS: over a libc shim it returns Some(c) only for c >= 10)",
+        "progress_dumb.rs (the plain console display) is under contract: task_started/task_finished never panic for a step that has a command -- a trait-level precondition of Progress::{task_started,task_finished} that Work::run is proved to meet at its call sites (unit sched: only non-phony steps are started); Cell and stdout are trusted wrappers (stdout writes ASSUMED to succeed)",
         "unit task: task::find_last_line (called in the task thread for every chunk of output) is proved never to panic and to return a sub-slice of the buffer without line breaks, for every byte string (R6: rposition as an explicit backwards scan)",
-        "R19: the `for (count, ch) in [..3 tuples..]` loop of progress_bar is unrolled; dumb/other Progress implementations are not covered",
+        "R19: the `for (count, ch) in [..3 tuples..]` loop of progress_bar is unrolled; the other FancyConsoleProgress methods (mutex, task_output's find().unwrap()) are not covered",
     ],
 }
 
